@@ -50,6 +50,8 @@ var staticVV = []struct {
 	{"self", "${vv:self}", kStr}, {"selfemb", "x${vv:selfemb}", kStr}, {"cyc1", "${vv:cyc2}", kStr}, {"cyc2", "-${vv:cyc1}", kStr},
 	{"cyc3a", "${vv:cyc3b}", kStr}, {"cyc3b", "${vv:cyc3c}", kStr}, {"cyc3c", "${vv:cyc3a}", kStr},
 	{"cycmap", "x: ${vv:cycmap}\n", kMap}, {"cyclist", "- ${vv:cycmap2}\n", kList}, {"cycmap2", "y: ${vv:cyclist}\n", kMap},
+	// a cycle through a list / map value that refers to itself TWICE: one more nesting level per round and twice as many leaves
+	{"cycfan", "- ${vv:cycfan}\n- ${vv:cycfan}\n", kList}, {"cycfanmap", "x: ${vv:cycfanmap}\ny: ${vv:cycfanmap}\n", kMap},
 	{"cycdup", "${vv:cycdup} ${vv:cycdup}", kStr}, {"cycdup2", "<${vv:cycdup3}|${vv:cycdup3}>", kStr}, {"cycdup3", "${vv:cycdup2}${vv:cycdup2}", kStr},
 }
 
